@@ -235,8 +235,14 @@ def install_spy(sim, st):
 
     for name, lm in rm._launchers.items():
         real = lm.get_launch_cmds
+        # the configuration the launcher was created with (a fresh instance
+        # must not inherit what earlier tasks left in the live one)
+        pristine = copy.deepcopy(lm._lm_cfg.as_dict()
+                                 if hasattr(lm._lm_cfg, 'as_dict')
+                                 else dict(lm._lm_cfg))
 
-        def spy(task, exec_path, _name=name, _lm=lm, _real=real):
+        def spy(task, exec_path, _name=name, _lm=lm, _real=real,
+                _cfg=pristine):
             slots = copy.deepcopy(task['slots'])
             rec = {'uid': task['uid'], 'lm': _name, 'slots': A.norm_slots(slots),
                    'ranks': task['description']['ranks'],
@@ -261,7 +267,7 @@ def install_spy(sim, st):
                 raise
             # what would a fresh instance (no history) produce?
             try:
-                lm_cfg = ru.Config(from_dict=dict(_lm._lm_cfg))
+                lm_cfg = ru.Config(from_dict=copy.deepcopy(_cfg))
                 fresh  = rpa.LaunchMethod.create(_name, lm_cfg, _lm._rm_info,
                                                  N.NullLog('lm'),
                                                  N.NullProf())
